@@ -178,6 +178,23 @@ Definition pd_filter (id : nat) (k : kont) : kont :=
     then (RNone, {| vis := vis s; pds := pds s; nxt := nxt s; hit := true |})
     else k c {| vis := vis s; pds := e :: pds s; nxt := nxt s; hit := hit s |}.
 
+(* the zero-iteration yields of get_from_zero_or_more *)
+Definition star_zero (sl sr : bool) (F : nat) (m : model) (k' : kont)
+           (first : bool) (c : cfg) (s1 : st) : res * st :=
+  if first then
+    let '(r1, s1') := if sl then k' c s1 else (RNone, s1) in
+    match r1 with
+    | RNone =>
+        if sr then
+          match root_of F m (c_obj c) with
+          | Some rt => k' (mk rt (c_names c) (c_path c)) s1'
+          | None => (ROof, s1')
+          end
+        else (RNone, s1')
+    | _ => (r1, s1')
+    end
+  else k' c s1.
+
 (* get_from_zero_or_more; evs = self.path_element.seq.get_next_matches *)
 Fixpoint gfz (evs : bool -> cfg -> kont -> st -> res * st) (sl sr : bool)
          (F : nat) (m : model) (kf : bool) (pos : list nat) (k' : kont)
@@ -186,20 +203,7 @@ Fixpoint gfz (evs : bool -> cfg -> kont -> st -> res * st) (sl sr : bool)
   | O => (ROof, s)
   | S n' =>
       guard kf pos first c s (fun s1 =>
-        let '(r, s2) :=
-          if first then
-            let '(r1, s1') := if sl then k' c s1 else (RNone, s1) in
-            match r1 with
-            | RNone =>
-                if sr then
-                  match root_of F m (c_obj c) with
-                  | Some rt => k' (mk rt (c_names c) (c_path c)) s1'
-                  | None => (ROof, s1')
-                  end
-                else (RNone, s1')
-            | _ => (r1, s1')
-            end
-          else k' c s1 in
+        let '(r, s2) := star_zero sl sr F m k' first c s1 in
         match r with
         | RNone => evs first c (fun c1 s3 => gfz evs sl sr F m kf pos k' n' false c1 s3) s2
         | _ => (r, s2)
@@ -451,3 +455,14 @@ Definition show_fres (r : fres) : string :=
   end.
 
 Definition show_names (l : list (list N)) : string := show_list show_str l.
+
+(* decidable form of [siblings_unique] for table models (mirrored by the check's classifier) *)
+Definition names_unique_in (t : list orow) (l : list nat) : bool :=
+  forallb (fun x => forallb (fun y =>
+    match o_name (nth x t row0), o_name (nth y t row0) with
+    | Some a, Some b => if str_eqb a b then Nat.eqb x y else true
+    | _, _ => true
+    end) l) l.
+
+Definition siblings_unique_tbl (t : list orow) : bool :=
+  forallb (fun row => forallb (fun av => names_unique_in t (vals (snd av))) (o_attrs row)) t.
